@@ -386,6 +386,19 @@ def run(pid, extra=None):
                 for sig, desc in problems:
                     if relevant(pid, sig):
                         r.violation("%s:coder-entry" % sig, "senders entering at the coder layer, random schedule: %s" % desc, {"jobs": "coder-entry", "schedule_tail": tail})
+            # two threads deliver incoming frames at once (the handshake thread flushing what was queued while the network thread brings the
+            # next frame) and one delivery is answered from within it, while a third thread sends: flush lock and transport lock are taken
+            # by all of them (random schedules only: SendPath.tla attributes a reply to the receiving thread's job, which does not fit two receivers)
+            rj = {"a": [{"kind": "recvreply", "entry": "top", "fault": "none"}, {"kind": "send", "entry": "top", "fault": "none"}],
+                  "b": [{"kind": "recv", "entry": "-", "fault": "none"}, {"kind": "recv", "entry": "-", "fault": "none"}],
+                  "c": [{"kind": "send", "entry": "mid", "fault": "none"}]}
+            for k in range(90 if thorough else 30):
+                problems, tail = random_schedule(r, pid, rj, rng)
+                r.case(("two-receivers", "rand", k, rng.random()))
+                r.cov["traces_validated_against_impl"] += 1
+                for sig, desc in problems:
+                    if relevant(pid, sig):
+                        r.violation("%s:two-receivers" % sig, "two delivering threads, one delivery answered from within, random schedule: %s" % desc, {"jobs": "two-receivers", "schedule_tail": tail})
             write_across_reconnect(r)
             write_raises_then_reconnect(r)
     finally:
